@@ -44,6 +44,9 @@ inductive Ans where
   | none
   | err (e : Nat)
   | val (v : Nat)
+  /-- an error payload whose error is itself a joined error (`errors.Join`) of the leaves `es`, in
+  order – e.g. the joined error response of another writer that the reader relays -/
+  | errs (es : List Nat)
   deriving DecidableEq, Repr, Inhabited
 
 /-- A packet the writer emits: `None`, an error (the list of joined errors), one payload, or a
@@ -63,9 +66,13 @@ def Resp.ofAns : Ans → Resp
   | .none => .none
   | .err e => .err [e]
   | .val v => .val v
+  | .errs es => .err es
 
-def errOf : Ans → Option Nat
-  | .err e => some e
+/-- The leaves of the error an answer carries (`payload.Unwrap()` read as the list of its leaf
+errors): one leaf for a plain error, the joined error's leaves in order for a joined one. -/
+def errOf : Ans → Option (List Nat)
+  | .err e => some [e]
+  | .errs es => some es
   | _ => none
 
 def valOf : Ans → Option Nat
@@ -74,12 +81,16 @@ def valOf : Ans → Option Nat
 
 /-- `packet.Join`:
     len 0 ⇒ None; len 1 ⇒ that packet; otherwise skip `None`s, collect errors and payloads;
-    any error ⇒ error of all errors; no payload ⇒ None; one ⇒ it; several ⇒ slice in order. -/
+    any error ⇒ error of all errors; no payload ⇒ None; one ⇒ it; several ⇒ slice in order.
+`New(types.NewError(errors.Join(errs...)))`: the joined error's members are the readers' errors in
+column (link) order; a member that is itself a joined error keeps all its leaves, so the response's
+error has – read as a flat list, which is also its message line by line – every leaf of every
+erroring reader, in link order, the `dropped packet` stand-ins of closed readers included. -/
 def join : List Ans → Resp
   | [] => .none
   | [a] => .ofAns a
   | cs =>
-    if cs.filterMap errOf ≠ [] then .err (cs.filterMap errOf)
+    if cs.filterMap errOf ≠ [] then .err (cs.filterMap errOf).flatten
     else match cs.filterMap valOf with
       | [] => .none
       | [v] => .val v
